@@ -290,11 +290,10 @@ def _optics_post(am, result, want_pol=True):
     for k, v in det.attrs.items():
         if k in ("medium_index", "illum_wavelen", "illum_polarization"):
             continue
-        if k == "noise_sd" or True:
-            if k not in result.attrs or not _attr_equal(result.attrs[k], v):
-                if v is None and result.attrs.get(k) is None:
-                    continue
-                out.append(("attrs_lost", "attr %s: got %r expected %r" % (k, result.attrs.get(k), v)))
+        if v is None and result.attrs.get(k) is None:
+            continue
+        if k not in result.attrs or digest(result.attrs[k]) != digest(v):
+            out.append(("attrs_lost", "attr %s: got %r expected %r" % (k, result.attrs.get(k), v)))
     return out
 
 
